@@ -1,2 +1,2 @@
-(* C15: all proofs (re-exported); see Chi2Proofs, HmfProofs, HmfProofs2, HmfProofs3, GenProofs, GenTheorems, SpectralProofs, CompleteProofs (and C13/LinAlgProofs). *)
-From PV Require Export C13.LinAlgProofs C15.Chi2Proofs C15.HmfProofs C15.HmfProofs2 C15.HmfProofs3 C15.GenProofs C15.GenTheorems C15.SpectralProofs C15.CompleteProofs.
+(* C15: all proofs (re-exported); see Chi2Proofs, HmfProofs, HmfProofs2, HmfProofs3, GenProofs, GenTheorems, SpectralProofs, CompleteProofs, Round5Proofs (and C13/LinAlgProofs). *)
+From PV Require Export C13.LinAlgProofs C15.Chi2Proofs C15.HmfProofs C15.HmfProofs2 C15.HmfProofs3 C15.GenProofs C15.GenTheorems C15.SpectralProofs C15.CompleteProofs C15.Round5Proofs.
